@@ -332,6 +332,12 @@ class Interp:
             return tuple(self.hashable(x) for x in v)
         if isinstance(v, frozenset):
             return v
+        if isinstance(v, SEnum):
+            # finitely many members: case split, then the key is concrete
+            for i, name in enumerate(v.members[:-1]):
+                if self.decide(mk(v.z == i, "bool"), f"{v.cls.split('.')[-1]} is {name}"):
+                    return VEnum(v.cls, name)
+            return VEnum(v.cls, v.members[-1])
         raise Unsupported(f"symbolic value used as key of a concrete dict/set: {v!r}")
 
     def e_NamedExpr(self, node, fr):
